@@ -719,6 +719,7 @@ def scan_items(toks, i, end, impl_ty, impl_trait, out, src, mod=None):
                 tr = None; ty = "".join(texts)
             ty_name = re.sub(r"<.*$", "", ty).lstrip("&")
             tr_name = tr
+            if tr is not None and ty.startswith("&"): tr_name = tr + "@ref"       # `impl Tr for &T` and `impl Tr for T` are different items
             j2 = match_brace(toks, j)
             if not cfg_test:
                 scan_items(toks, j + 1, j2 - 1, ty_name, tr_name, out, src, mod)
